@@ -299,6 +299,28 @@ def check(run: Run) -> None:
                                 f"(`{h[:80]}`) were read from", loc=loc)
         run.sites(n, 5, "leaf registration sites")
 
+    with run.obligation("C11.f2", "K9", "the four leaf-indexed containers a registration fills together (key_to_leaf, dense_to_key, dense_to_source_slot, dense_to_source_handle) "
+                        "are also emptied together and shrunk together: clear_leaf_state clears all four (a key index that survives the reset keeps stale key -> leaf "
+                        "entries, and the emplace of the following rebuild silently keeps them), remove_leaf_at erases the key and pops the three vectors"):
+        QUARTET = ("key_to_leaf", "dense_to_key", "dense_to_source_slot", "dense_to_source_handle")
+        fa = R.fn(run, RED, "clear_leaf_state")
+        cn = R.aliases_of(fa)
+        cleared = {cn(c.fn.obj).split(".")[-1] for c in R.calls(fa, "clear") if isinstance(c.fn, C.Member)}
+        run.count(1, "C11.f2.clear")
+        miss = [q for q in QUARTET if q not in cleared]
+        if miss:
+            run.finding("C11.f2", f"clear_leaf_state:not-cleared:{'+'.join(miss)}", f"clear_leaf_state leaves {miss} populated while the other leaf containers are emptied: after a "
+                        "re-point of the collection the following rebuild registers the keys at new dense positions but the stale entries survive (emplace keeps an existing "
+                        "key), so a later tick or removal of such a key addresses the wrong leaf", loc=fa.loc(fa.body))
+        fa = R.fn(run, RED, "remove_leaf_at")
+        cn = R.aliases_of(fa)
+        popped = {cn(c.fn.obj).split(".")[-1] for c in R.calls(fa, "pop_back") if isinstance(c.fn, C.Member)}
+        erased = {cn(c.fn.obj).split(".")[-1] for c in R.calls(fa, "erase") if isinstance(c.fn, C.Member)}
+        run.count(1, "C11.f2.remove")
+        miss = [q for q in QUARTET[1:] if q not in popped] + ([] if "key_to_leaf" in erased else ["key_to_leaf"])
+        if miss:
+            run.finding("C11.f2", f"remove_leaf_at:not-shrunk:{'+'.join(miss)}", f"remove_leaf_at does not shrink {miss} with the other leaf containers", loc=fa.loc(fa.body))
+
     with run.obligation("C11.g", "K7+K2", "swap-remove of a leaf: the paths that change are those of the removed leaf and of the LAST leaf (which moves into the "
                         "hole); record_removed_leaf_paths and remove_leaf_at agree on which leaf is last (size - 1), and the paths are recorded before the "
                         "leaf is removed (the size changes)"):
@@ -409,6 +431,8 @@ def check(run: Run) -> None:
 
 
 VARIANTS = [
+    {"id": "f2-seed-C11-5-key-index-survives-reset", "expect": "C11.f2", "edits": [{"file": RED, "find": "            storage.dense_to_source_handle.clear();\n            storage.key_to_leaf.clear();", "replace": "            storage.dense_to_source_handle.clear();"}]},
+    {"id": "f2-remove-keeps-handle", "expect": "C11.f2", "edits": [{"file": RED, "find": "            storage.dense_to_source_slot.pop_back();\n            storage.dense_to_source_handle.pop_back();", "replace": "            storage.dense_to_source_slot.pop_back();"}]},
     {"id": "j-leaf-scan-occupied", "expect": "C11.j", "edits": [{"file": RED, "find": "dict.slot_live(slot)", "replace": "dict.slot_occupied(slot)"}]},
     {"id": "i-lifted-fold-stops-at-first-invalid", "expect": "C11.i", "edits": [{"file": "include/hgraph/lib/std/operators/impl/higher_order_impl.h", "find": "                    auto item = list[i];\n                    if (!item.valid()) { continue; }\n                    if (!accumulator.has_value())", "replace": "                    auto item = list[i];\n                    if (!item.valid()) { break; }\n                    if (!accumulator.has_value())"}]},
     {"id": "h-zero-repoint-ignored-for-singleton", "expect": "C11.h", "edits": [{"file": "src/hgraph/runtime/reduce_node.cpp", "find": "                zero_repointed && storage.dense_to_key.size() <= 1;", "replace": "                zero_repointed && storage.dense_to_key.empty();"}]},
